@@ -259,6 +259,7 @@ type BridgeDetCase struct {
 	Dep    DepositCase `json:"dep,omitempty"`
 	Wd     WdCase      `json:"wd,omitempty"`
 	Rel    RelCase     `json:"rel,omitempty"`
+	Cold   bool        `json:"cold,omitempty"` // the replica is restarted before every block
 }
 
 func divergence(o Outcome) *Failure {
@@ -279,7 +280,8 @@ func divergence(o Outcome) *Failure {
 
 func runBridgeDet(c BridgeDetCase) Outcome {
 	world.ReplicasWanted = 1
-	defer func() { world.ReplicasWanted = 0 }()
+	world.ReplicasCold = c.Cold
+	defer func() { world.ReplicasWanted, world.ReplicasCold = 0, false }()
 	var inner Outcome
 	switch c.Source {
 	case "deposits":
@@ -289,7 +291,7 @@ func runBridgeDet(c BridgeDetCase) Outcome {
 	default:
 		inner = runRelayer(c.Rel, "C02")
 	}
-	o := Outcome{Classes: append([]string{"source=" + c.Source}, inner.Classes...), Evals: inner.Evals, NonTrivial: true}
+	o := Outcome{Classes: append([]string{"source=" + c.Source, fmt.Sprintf("cold-replica=%v", c.Cold)}, inner.Classes...), Evals: inner.Evals, NonTrivial: true}
 	// only disagreement between the executions is this property's business; the inner oracles belong to C03/C05/C02
 	o.Fail = divergence(inner)
 	if inner.Fail != nil && o.Fail == nil {
@@ -302,7 +304,7 @@ func TestC07_Bridge(t *testing.T) {
 	RunProp(t, Prop[BridgeDetCase]{
 		ID: "C07", Name: "bridge", Quick: 400, Thor: 8000,
 		Gen: func(t *rapid.T) BridgeDetCase {
-			c := BridgeDetCase{Source: rapid.SampledFrom([]string{"deposits", "deposits", "withdrawals", "relayer"}).Draw(t, "source")}
+			c := BridgeDetCase{Source: rapid.SampledFrom([]string{"deposits", "deposits", "withdrawals", "relayer"}).Draw(t, "source"), Cold: rapid.Bool().Draw(t, "cold")}
 			switch c.Source {
 			case "deposits":
 				c.Dep = genDepositHistory(t)
@@ -322,6 +324,6 @@ func TestC07_Bridge(t *testing.T) {
 			return c
 		},
 		Run:  runBridgeDet,
-		Rule: "deposit-batch histories (multi-item, multi-header batches with mutated items, several batches per block, restarts), withdrawal lifecycles and relayer-world histories (failing votes, replays, registrations, elections) executed on the primary and on a replica with its own store, fake execution layer and node key; every block's app hash and per-transaction code/codespace/gas/data must agree; every case is non-trivial (each contains failing transactions); evaluations count blocks",
+		Rule: "deposit-batch histories (multi-item, multi-header batches with mutated items, several batches per block, restarts), withdrawal lifecycles and relayer-world histories (failing votes, replays, registrations, elections) executed on the primary and on a replica with its own store, fake execution layer and node key (in half of the cases the replica is restarted before every block, so that it never shares the primary's process history); every block's app hash and per-transaction code/codespace/gas/data must agree; every case is non-trivial (each contains failing transactions); evaluations count blocks",
 	})
 }
